@@ -971,8 +971,24 @@ class Variable(CanBehaveLikeAVariable[T]):
             yield from self._yield_from_cache_or_instantiate_new_values_(sources)
 
     def _generate_combinations_for_child_vars_values_(self, sources: Optional[Dict[int, HashedValue]] = None):
-        kwargs_generators = {k: v._evaluate_as_value_(sources) for k, v in self._child_vars_.items()}
-        yield from generate_combinations(kwargs_generators)
+        yield from self._bind_child_vars_(list(self._child_vars_.items()), sources or {})
+
+    def _bind_child_vars_(self, child_vars: List[Tuple[str, SymbolicExpression]], binding: Dict[int, HashedValue]) \
+            -> Iterable[Dict[str, Dict[int, HashedValue]]]:
+        """
+        Evaluate the child variables (the arguments) one after the other, each under the binding accumulated so far, so
+        that arguments that share a variable which is not bound yet (q.name and q.age, a parent and its flattened
+        attribute) take their values from the same assignment; unrelated arguments are still combined freely.
+        """
+        if not child_vars:
+            yield {}
+            return
+        (name, var), remaining_child_vars = child_vars[0], child_vars[1:]
+        for value in var._evaluate_as_value_(copy(binding)):
+            extended_binding = copy(binding)
+            extended_binding.update(value)
+            for remaining_kwargs in self._bind_child_vars_(remaining_child_vars, extended_binding):
+                yield {name: value, **remaining_kwargs}
 
     def _yield_from_cache_or_instantiate_new_values_(self, sources: Optional[Dict[int, HashedValue]] = None,
                                                      kwargs: Dict[str, Dict[int, HashedValue]] = None):
@@ -995,19 +1011,19 @@ class Variable(CanBehaveLikeAVariable[T]):
             -> Iterable[Dict[int, HashedValue]]:
         # Build once: unwrapped hashed kwargs for already provided child vars
         bound_kwargs = {k: v[self._child_vars_[k]._id_] for k, v in kwargs.items()}
-        # For missing kwargs, evaluate their generators lazily
-        unbound_kwargs = {k: v._evaluate_as_value_(sources)
-                          for k, v in self._child_vars_.items() if k not in bound_kwargs}
-        if unbound_kwargs:
+        # For missing kwargs, evaluate them lazily, one under the binding of the other
+        unbound_child_vars = [(k, v) for k, v in self._child_vars_.items() if k not in bound_kwargs]
+        if unbound_child_vars:
+            unbound_kwargs = self._bind_child_vars_(unbound_child_vars, sources or {})
             yield from self._bind_unbound_kwargs_and_yield_results_(kwargs, unbound_kwargs, bound_kwargs)
         else:
             instance = self._type_(**{k: hv.value for k, hv in bound_kwargs.items()})
             yield from self._process_output_and_update_values_(instance, **kwargs)
 
     def _bind_unbound_kwargs_and_yield_results_(self, kwargs: Dict[str, Dict[int, HashedValue]],
-                                                unbound_kwargs: Dict[str, Iterable],
+                                                unbound_kwargs: Iterable[Dict[str, Dict[int, HashedValue]]],
                                                 bound_kwargs: Dict[str, HashedValue]):
-        for extra_kwargs in generate_combinations(unbound_kwargs):
+        for extra_kwargs in unbound_kwargs:
             # Avoid mutating the shared kwargs dict; work on a shallow copy
             merged_kwargs = dict(kwargs)
             merged_kwargs.update(extra_kwargs)
